@@ -327,15 +327,36 @@ def _run_batch(job):
     return res
 
 
-_BIGNUM = re.compile(rb"(?<![\w.])[-+]?(?:\d{4,}(?:\.\d*)?|\d+(?:\.\d*)?[eE]\+?[3-9]\d*|\d+(?:\.\d*)?[eE]\+?\d{2,}|\d+[kKmMgGtT])(?![\w.])")
+_ATTR_VALUE = re.compile(rb"""([A-Za-z_][\w.:-]*)\s*=\s*(?:"([^"]*)"|'([^']*)')""")
+_NUM_TOKEN = re.compile(rb"[-+]?(?:\d+\.?\d*|\.\d+)(?:[eE][-+]?\d+)?$")
+_SIZE_TOKEN = re.compile(rb"\d+[kKmMgGtTpPeE]$")
+_NONFINITE_TOKEN = re.compile(rb"[-+]?(?:inf|infinity|nan)$", re.I)
+_MEMORY_ATTRS = (b"memory",)          # XMLreference size/memory: "a number ... followed by one of {K, M, G, T, P, E}"
 
 
 def _requests_resources(data):
-    """operational reading of 'resource exhaustion requested by the document itself': the input contains a number of
-    magnitude >= 1000 (or a size suffix, or inf/nan) -- a runaway loop on a document of small numbers is NOT tolerated"""
+    """operational reading of 'resource exhaustion requested by the document itself': some attribute VALUE of the input
+    contains, as a whole whitespace-separated token, (a) a number of magnitude >= 1000, (b) a size-suffixed number on a
+    memory attribute, or (c) a non-finite numeric literal (inf / nan).  Only value tokens count: element or attribute names
+    ("inflate", "nanometer"), keywords ("info") and digit runs inside names ("body1000", "mesh_2024.stl") do not.  A
+    runaway loop on a document of small numbers is therefore NOT tolerated."""
     if isinstance(data, str):
         data = data.encode()
-    return bool(_BIGNUM.search(data)) or b"inf" in data.lower() or b"nan" in data.lower()
+    for m in _ATTR_VALUE.finditer(data):
+        name = m.group(1).lower()
+        val = m.group(2) if m.group(2) is not None else m.group(3)
+        for tok in val.split():
+            if _NUM_TOKEN.match(tok):
+                try:
+                    if abs(float(tok)) >= 1000:
+                        return True
+                except (ValueError, OverflowError):
+                    return True
+            elif _NONFINITE_TOKEN.match(tok):
+                return True
+            elif name in _MEMORY_ATTRS and _SIZE_TOKEN.match(tok):
+                return True
+    return False
 
 
 def _native_signature(data, scratch, flavour, rc, stderr, api=0, errsz=1000):
